@@ -202,7 +202,7 @@ OptLayout ==
   @@ (7  :> One("AlgCode", "bytes"))
   @@ (8  :> << F("Family", "u16"), F("SourceNetmask", "u8"), F("SourceScope", "u8"),
                FS("Address", "prefixaddr", "SourceNetmask") >>)
-  @@ (9  :> One("Expire", "u32e"))
+  @@ (9  :> << [n |-> "Expire", k |-> "u32e", flag |-> "Empty"] >>)   \* Go spells absence with a separate BOOLEAN field
   @@ (10 :> One("Cookie", "hex"))
   @@ (11 :> One("Timeout", "u16opt"))
   @@ (12 :> One("Padding", "bytes"))
